@@ -264,7 +264,7 @@ def run(ctx, rep):
     from rules.C10 import borrow
     rep.rule("C08.i", "repair-index warms up and reads the complete set of packs whose headers it needs (shared with C16.c)")
     n_ = borrow(rep, ctx, C16, lambda o: o.rule == "C16.c" and "repair::index" in o.key, "C08.i")
-    rep.floor("C08.i", "borrowed obligations", n_, 2)
+    rep.floor("C08.i", "borrowed obligations", n_, 1)
     # ---- C08.h: sizes computed from index data add up the length of EACH entry (entries of one pack may differ: a pack
     # can mix compressed and uncompressed blobs, e.g. after a fast repack across a compression change)
     rep.rule("C08.h", "computed header/pack sizes sum the individual entry lengths")
